@@ -59,7 +59,7 @@ func (p *diffProp) Gen(seed uint64, tier string, i int) Case {
 	} else if r.P(0.15) {
 		c.Engine.EmptyQueryOpts = true // options given, but without a lookback delta: the engine's applies
 	}
-	if p.id == "C06" && r.P(0.06) {
+	if (p.id == "C06" || p.extreme) && r.P(0.06) {
 		// scalars and functions behave the same when the plan is cut into remote executions
 		c.NParts = 2
 		c.Engine.Opt = "none"
